@@ -988,6 +988,9 @@ class Evaluator:
                     full[i] = t
                 return ('slice', full[0], full[1], full[2])
             return self._ev_n([parts[i] for i in idx], st, mod, fi, depth, mk)
+        if isinstance(e, ast.IfExp) and getattr(self, '_nofork', 0):
+            # inside a comprehension element: keep the conditional as a term (one element, not one path per case)
+            return self._ev_n([e.test, e.body, e.orelse], st, mod, fi, depth, lambda ts: ('ifexp', ts[0], ts[1], ts[2]))
         if isinstance(e, ast.IfExp):
             out = []
             for truth, s2, k, t in self._cond(e.test, st, mod, fi, depth):
@@ -1001,7 +1004,7 @@ class Evaluator:
         if isinstance(e, (ast.ListComp, ast.GeneratorExp, ast.SetComp)):
             return self._comp(e, st, mod, fi, depth)
         if isinstance(e, ast.DictComp):
-            return [(self.fresh('dictcomp'), st, 'ok')]
+            return self._comp(e, st, mod, fi, depth)
         if isinstance(e, ast.JoinedStr):
             return [(('fstr', unparse(e)), st, 'ok')]
         if isinstance(e, ast.Lambda):
@@ -1072,7 +1075,16 @@ class Evaluator:
                 co = self._ev(c, s, mod, fi, depth)
                 conds.append(co[0][0])
             gens.append((var, it, tuple(conds)))
-        elt = self._ev(e.elt, s, mod, fi, depth + self.max_depth)   # no inlining inside comprehensions
+        self._nofork = getattr(self, '_nofork', 0) + 1
+        try:
+            if isinstance(e, ast.DictComp):
+                kt = self._ev(e.key, s, mod, fi, depth + self.max_depth)
+                vt = self._ev(e.value, s, mod, fi, depth + self.max_depth)
+                t = ('comp', 'dict', ('tuple', (kt[0][0], vt[0][0])), tuple(gens))
+                return [(t, st, 'ok')]
+            elt = self._ev(e.elt, s, mod, fi, depth + self.max_depth)   # no inlining inside comprehensions
+        finally:
+            self._nofork -= 1
         kind = {ast.ListComp: 'list', ast.GeneratorExp: 'gen', ast.SetComp: 'set'}[type(e)]
         t = ('comp', kind, elt[0][0], tuple(gens))
         # effects inside the element expression are kept on the outer state
